@@ -6,6 +6,7 @@ import (
 	"os"
 
 	"github.com/tetratelabs/wazero/verifharness/cfgreplay"
+	"github.com/tetratelabs/wazero/verifharness/fcache"
 	"github.com/tetratelabs/wazero/verifharness/registry"
 )
 
@@ -15,6 +16,12 @@ var cmds = map[string]func([]string){
 	"replay-registry":   registry.Replay,
 	"trace-registry":    registry.Trace,
 	"gate-registry":     registry.Gate,
+	"fc-child":          fcache.Child,
+	"fc-replay":         fcache.ReplayProc,
+	"fc-gate":           fcache.ReplayGate,
+	"fc-trunc":          fcache.Trunc,
+	"fc-det":            fcache.Determinism,
+	"fc-points":         fcache.TracePoints,
 }
 
 func main() {
